@@ -45,6 +45,13 @@ def snapshot(tree):
   return [np.array(l, copy=True) for l in leaves(tree)]
 
 
+_AGG = []
+
+
+class _StreamFailure(Exception):
+  pass
+
+
 class OneShot:
   def __init__(self, items):
     self.items, self.used = items, False
@@ -90,6 +97,8 @@ def mean_case(case):
   from fedjax.aggregators import aggregator
   kind, ws, as_jax, seed = case['tree'], case['weights'], case['jax'], case.get('seed', 0)
   n = len(ws)
+  if not _AGG:
+    _AGG.append(aggregator.mean_aggregator())
   orders = [case['order']] if 'order' in case else (
       list(itertools.permutations(range(n))) if case.get('all_orders', True) else
       [list(range(n)), list(range(n))[::-1], list(range(1, n)) + [0]])
@@ -104,10 +113,19 @@ def mean_case(case):
         trees = [make_tree(kind, k, seed, as_jax) for k in range(n)]
         snaps = [snapshot(t) for t in trees]
         pairs = [(trees[i], ws[i]) for i in order]
+        if n > 1 and evals % 3 == 0:
+          # an aggregation whose input stream fails after the first client must leave nothing behind
+          def failing():
+            yield (pairs[0] if fn == 'tree_mean' else (b'c0',) + pairs[0])
+            raise _StreamFailure()
+          try:
+            tree_util.tree_mean(failing()) if fn == 'tree_mean' else _AGG[0].apply(failing(), _AGG[0].init())
+          except _StreamFailure:
+            pass
         if fn == 'tree_mean':
           out = tree_util.tree_mean(wrap(pairs, it))
         else:
-          agg = aggregator.mean_aggregator()
+          agg = _AGG[0]  # one long-lived aggregator object serves every case of this process
           st = agg.init()
           out, st2 = agg.apply(wrap([(b'c%d' % i, t, w) for i, (t, w) in enumerate(pairs)], it), st)
         tot = float(sum(ws))
@@ -212,6 +230,24 @@ def clip_case(case):
                 '(direction changed)', r.tolist(), g.tolist(), case=nc)
     check_inputs_intact([tree], [snap], out, 'tree_clip_by_global_norm', nc)
     evals += 1
+  if not as_jax and norm > 0 and not case.get('zero'):
+    # history on one tree object: the caller updates its (numpy) leaves in place, then measures / clips again
+    import jax
+    for factor in (3.0, 0.125):
+      for l in leaves(tree):
+        if isinstance(l, np.ndarray) and l.shape and l.dtype.kind == 'f':
+          l *= np.asarray(factor, l.dtype)
+      snap2 = snapshot(tree)
+      n2 = float(np.sqrt(sum(np.sum(np.asarray(s_, np.float64) ** 2) for s_ in snap2)))
+      got_n = float(tree_util.tree_l2_norm(tree))
+      require(abs(got_n - n2) <= 1e-5 * (1 + n2), 'tree_l2_norm after an in-place update of the same tree object is stale',
+              n2, got_n, case=dict(case, inplace=factor))
+      bound = 0.5 * n2
+      out = tree_util.tree_clip_by_global_norm(tree, bound)
+      on = float(np.sqrt(sum(np.sum(np.asarray(g, np.float64) ** 2) for g in leaves(out))))
+      require(on <= bound * (1 + 1e-5) + 1e-30, 'clipping after an in-place update of the same tree object exceeds the bound',
+              bound, on, case=dict(case, inplace=factor))
+      evals += 1
   return {'evals': evals, 'nontrivial': norm > 0, 'outcome': [kind, round(norm, 3)]}
 
 
